@@ -116,6 +116,8 @@ Definition get_field (v : val) (f : string) : option val :=
       else if String.eqb f "ids" then Some (VIds vals) else None
   | VPalPend vals cap pb _ =>
       if String.eqb f "values" then Some (VSlice vals cap) else if String.eqb f "bits" then Some (VZ pb) else None
+  | VCfg cf =>   (* block.BitsPerBlock / biome.BitsPerBiome: the registry width of the configuration *)
+      if String.eqb f "BitsPerBlock" || String.eqb f "BitsPerBiome" then Some (VZ (gbits cf)) else None
   | VCont c =>
       if String.eqb f "bits" then Some (VZ (cbits c)) else if String.eqb f "config" then Some (VCfg (ccfg c))
       else if String.eqb f "palette" then Some (VPal (cpal c)) else if String.eqb f "data" then Some (VStore (cdata c))
@@ -352,18 +354,66 @@ Fixpoint bind_all (e : env) (xs : list string) (vs : list val) : option env :=
   | _, _ => None
   end.
 
+(* statement lists, blocks and loops over a step function *)
+Fixpoint seq_exec (step : env -> gstmt -> sres) (e : env) (ss : list gstmt) : sres :=
+  match ss with
+  | [] => SN e
+  | s1 :: t => match step e s1 with SN e1 => seq_exec step e1 t | r => r end
+  end.
+Definition scoped_exec (step : env -> gstmt -> sres) (e : env) (ss : list gstmt) : sres :=
+  match seq_exec step e ss with SN e1 => SN (pop_to (List.length e) e1) | r => r end.
+(* for k, v := range l *)
+Fixpoint range_loop (bodyf : env -> sres) (k v : string) (e : env) (idx : Z) (l : list Z) : sres :=
+  match l with
+  | [] => SN e
+  | y :: t => match bodyf ((v, VZ y) :: (k, VZ idx) :: e) with
+              | SN e3 => range_loop bodyf k v (pop_to (List.length e) e3) (idx + 1) t
+              | r => r
+              end
+  end.
+(* for i := lo; i < hi; i++ over the index list *)
+Fixpoint count_loop (bodyf : env -> sres) (i : string) (e : env) (idxs : list Z) : sres :=
+  match idxs with
+  | [] => SN e
+  | j :: t => match bodyf ((i, VZ j) :: e) with
+              | SN e3 => count_loop bodyf i (pop_to (List.length e) e3) t
+              | r => r
+              end
+  end.
+Fixpoint int_lits (xs : list gexpr) : option (list Z) :=
+  match xs with
+  | [] => Some []
+  | EInt z :: r => match int_lits r with Some zs => Some (z :: zs) | None => None end
+  | _ => None
+  end.
+(* switch over integer literals: the first matching clause, else the default clause *)
+Fixpoint pick_case (run_block : list gstmt -> sres) (t : Z) (cs : list (list gexpr * list gstmt))
+                   (dflt : option (list gstmt)) : sres :=
+  match cs with
+  | [] => match dflt with Some b => run_block b | None => run_block [] end
+  | ([], b) :: r => pick_case run_block t r (Some b)
+  | (xs, b) :: r => match int_lits xs with
+                    | Some zs => if existsb (Z.eqb t) zs then run_block b else pick_case run_block t r dflt
+                    | None => SStuck
+                    end
+  end.
+Fixpoint eval_rets (ev : env -> gexpr -> eres) (e : env) (xs : list gexpr) (acc : list val) : sres :=
+  match xs with
+  | [] => SR e (rev acc)
+  | y :: t => match ev e y with
+              | EV e1 v => eval_rets ev e1 t (v :: acc)
+              | EP e1 w => SP e1 w
+              | EStuck => SStuck
+              end
+  end.
+
 Fixpoint exec (setf : pc -> Z -> Z -> pc * outcome) (fuel : nat) (e : env) (s : gstmt) : sres :=
   match fuel with
   | O => SStuck
   | S f =>
     let ev := eval setf fuel in
-    let block := fix block (e : env) (ss : list gstmt) : sres :=
-        match ss with
-        | [] => SN e
-        | s1 :: t => match exec setf f e s1 with SN e1 => block e1 t | r => r end
-        end in
-    let scoped := fun (e : env) (ss : list gstmt) =>
-        match block e ss with SN e1 => SN (pop_to (List.length e) e1) | r => r end in
+    let block := seq_exec (exec setf f) in
+    let scoped := scoped_exec (exec setf f) in
     match s with
     | SDefine xs [EIndex m k] =>
         match xs with
@@ -437,14 +487,8 @@ Fixpoint exec (setf : pc -> Z -> Z -> pc * outcome) (fuel : nat) (e : env) (s : 
           | EV e1 (VZ lo) =>
               match ev e1 b with
               | EV e2 (VZ hi) =>
-                  (fix loop (e : env) (idxs : list Z) : sres :=
-                     match idxs with
-                     | [] => SN e
-                     | j :: t => match scoped ((i, VZ j) :: e) body with
-                                 | SN e3 => loop (pop_to (List.length e) e3) t
-                                 | r => r
-                                 end
-                     end) e2 (map (fun k => lo + Z.of_nat k) (seq 0 (Z.to_nat (hi - lo))))
+                  count_loop (fun e' => scoped e' body) i e2
+                    (map (fun k => lo + Z.of_nat k) (seq 0 (Z.to_nat (hi - lo))))
               | EV _ _ => SStuck | EP e2 w => SP e2 w | EStuck => SStuck
               end
           | EV _ _ => SStuck | EP e1 w => SP e1 w | EStuck => SStuck
@@ -454,59 +498,25 @@ Fixpoint exec (setf : pc -> Z -> Z -> pc * outcome) (fuel : nat) (e : env) (s : 
     | SRange k v x body =>
         match ev e x with
         | EV e1 (VSlice l _) =>
-            (fix loop (e : env) (idx : Z) (l : list Z) : sres :=
-               match l with
-               | [] => SN e
-               | y :: t => match scoped ((v, VZ y) :: (k, VZ idx) :: e) body with
-                           | SN e3 => loop (pop_to (List.length e) e3) (idx + 1) t
-                           | r => r
-                           end
-               end) e1 0 l
+            range_loop (fun e' => scoped e' body) k v e1 0 l
         | EV _ _ => SStuck | EP e1 w => SP e1 w | EStuck => SStuck
         end
     | SSwitch [tag] cases =>
         match ev e tag with
         | EV e1 (VZ t) =>
             (* case expressions of palette.go are integer literals: no effects *)
-            let lits := fix lits (xs : list gexpr) : option (list Z) :=
-                match xs with
-                | [] => Some []
-                | EInt z :: r => match lits r with Some zs => Some (z :: zs) | None => None end
-                | _ => None
-                end in
-            (fix pick (cs : list (list gexpr * list gstmt)) (dflt : option (list gstmt)) : sres :=
-               match cs with
-               | [] => match dflt with Some b => scoped e1 b | None => SN e1 end
-               | ([], b) :: r => pick r (Some b)
-               | (xs, b) :: r => match lits xs with
-                                 | Some zs => if existsb (Z.eqb t) zs then scoped e1 b else pick r dflt
-                                 | None => SStuck
-                                 end
-               end) cases None
+            pick_case (scoped e1) t cases None
         | EV _ _ => SStuck | EP e1 w => SP e1 w | EStuck => SStuck
         end
     | SSwitch _ _ => SStuck
-    | SReturn es =>
-        (fix rets (e : env) (xs : list gexpr) (acc : list val) : sres :=
-           match xs with
-           | [] => SR e (rev acc)
-           | y :: t => match ev e y with
-                       | EV e1 v => rets e1 t (v :: acc)
-                       | EP e1 w => SP e1 w
-                       | EStuck => SStuck
-                       end
-           end) e es []
+    | SReturn es => eval_rets ev e es []
     | SExpr x => match ev e x with EV e1 _ => SN e1 | EP e1 w => SP e1 w | EStuck => SStuck end
     | SIncDec _ _ => SStuck
     end
   end.
 
 Definition exec_body (setf : pc -> Z -> Z -> pc * outcome) (fuel : nat) (e : env) (ss : list gstmt) : sres :=
-  (fix block (e : env) (ss : list gstmt) : sres :=
-     match ss with
-     | [] => SN e
-     | s1 :: t => match exec setf fuel e s1 with SN e1 => block e1 t | r => r end
-     end) e ss.
+  seq_exec (exec setf fuel) e ss.
 
 (* ====================== running a translated function ====================== *)
 
